@@ -25,7 +25,11 @@ MANIFEST = dict(
          'name (known finding F-STROP-HANDLER-UNVERIFIED); in a tree whose strop re-verifies its result (recognised by T1) the '
          'statement holds for every configuration with the validity conditions only (strop_sound_any_config), and '
          'strop_override_state says which case is live now; Python\'s reserved list covers keyword.kwlist+dir(builtins) of the '
-         'interpreter; results do not depend on other Language objects of the process (tested, not proved). The theorems are generic in '
+         'interpreter; TOTALITY: every non-empty string / every DSDL name gets a token for every type but `all` (strop_total_*, '
+         'strop_dsdl_identifier, strop_outcomes); CACHE ISOLATION: the lru_cache key is regenerated (self, token, type; self by '
+         'identity) and any interleaving of calls on any family of encoder configurations through the shared cache returns each '
+         'encoder\'s own uncached result (lru_shared_transparent, two_encoders_isolated) -- also tested with two Language objects '
+         'per process in both orders, call-by-call alternation past the cache size. The theorems are generic in '
          'the configuration record and applied to Generated/Gen_Strop.v through boolean side conditions evaluated by vm_compute, so '
          'an edit to properties.yaml, the reserved lists or the failure handlers re-runs the proofs on the new data. Tie: T1 '
          'regenerates the configuration from the TokenEncoder instances of the working tree, TRANSLATES the body of strop into a '
@@ -463,7 +467,24 @@ def isolation_runs(stats: dict) -> typing.List[dict]:
         except Exception:
             return ln, mode, a, b, doc, 'multi-object harness failed: ' + p.stdout[-300:]
 
+    # call-by-call alternation between two configurations with more distinct keys than the shared lru_cache holds
+    big = [['any', w] for w in ['if', 'for', 'None', '_A', '__x', 'a b', '1x', 'int8_t']] + [['any', 'w%d' % i] for i in range(700)] \
+        + [['macro', 'E%d' % i] for i in range(60)]
+
+    def big_job(ln):
+        a, b = 0, 1
+        doc = {'objects': [{'lang': ln, 'overrides': ISO_CONFIGS[a]}, {'lang': ln, 'overrides': ISO_CONFIGS[b]}],
+               'cases': big, 'mode': 'alternating'}
+        p = core.run([core.PY, HARNESS, 'multi'], input=json.dumps(doc), env=core.repo_env(), timeout=600)
+        ra = run_impl([[ln, ty, s] for ty, s in big], overrides=ISO_CONFIGS[a])[0]
+        rb = run_impl([[ln, ty, s] for ty, s in big], overrides=ISO_CONFIGS[b])[0]
+        try:
+            return ln, doc, json.loads(p.stdout[p.stdout.index('{"multi"'):]), (ra, rb)
+        except Exception:
+            return ln, doc, 'multi-object harness failed: ' + p.stdout[-300:], (ra, rb)
+
     with ThreadPoolExecutor(max_workers=6) as ex:
+        bigs = list(ex.map(big_job, LANGS))
         ref = dict(ex.map(lambda t: ref_job(*t), [(ln, ci) for ln in LANGS for ci in range(len(ISO_CONFIGS))]))
         jobs = list(ex.map(lambda t: multi_job(*t), [(ln, mode, a, b) for ln in LANGS for mode in ('create_all_first', 'interleaved')
                                                      for a, b in pairs]))
@@ -482,6 +503,22 @@ def isolation_runs(stats: dict) -> typing.List[dict]:
                                             'configuration answers %r' % (oi, which, mode, res[oi][k], ref[(ln, ci)][k]),
                                     'case': [ln, ty, s], 'objects': doc['objects'], 'mode': mode, 'object_index': oi,
                                     'implementation': res[oi][k], 'expected': ref[(ln, ci)][k]})
+    nbig = 0
+    for ln, doc, d, refs in bigs:
+        if isinstance(d, str):
+            bad.append({'what': d, 'objects': doc['objects']})
+            continue
+        for which, res in (('alternating pass', d['multi']), ('second pass (entries evicted)', d['again'])):
+            for oi in (0, 1):
+                for k, (ty, s) in enumerate(big):
+                    nbig += 1
+                    if res[oi][k] != refs[oi][k]:
+                        bad.append({'what': 'the result of filter_id depends on another Language object of the same process: object '
+                                            '#%d (%s, call-by-call alternation, %d distinct keys per object) answered %r, a '
+                                            'process with only that configuration answers %r' % (oi, which, len(big), res[oi][k], refs[oi][k]),
+                                    'case': [ln, ty, s], 'objects': doc['objects'], 'mode': 'alternating', 'object_index': oi,
+                                    'implementation': res[oi][k], 'expected': refs[oi][k]})
+    stats['alternating_two_config_comparisons'] = nbig
     stats['multi_object_comparisons'] = n
     stats['multi_object_disagreements'] = len(bad)
     return bad
